@@ -86,6 +86,16 @@ fn low_level_site(file: &str) -> bool {
     ["src/trees/", "src/bits/", "src/util/", "src/text/", "src/binary"].iter().any(|p| file.starts_with(p))
 }
 
+/// Panic site as a path relative to the crate root ("src/json/light.rs"), wherever the
+/// checkout of the tree under test lives; line and column dropped so edits do not move it.
+fn site_of(loc: &str) -> String {
+    let s = panic_sig(loc);
+    match s.rfind("/src/") {
+        Some(i) => s[i + 1..].to_string(),
+        None => s,
+    }
+}
+
 /// the N of "nesting depth exceeds limit of N"
 fn guard_limit(msg: &str) -> Option<usize> {
     let i = msg.find("nesting depth exceeds limit of ")?;
@@ -120,7 +130,7 @@ impl<'a> Env<'a> {
             self.push(sig, api, &loc, &msg);
             return;
         }
-        let site = panic_sig(&loc);
+        let site = site_of(&loc);
         let sig = if low_level_site(&site) {
             format!("C19/lib/panic@{}/{}", site, msg_class(&msg))
         } else {
@@ -1028,8 +1038,28 @@ fn gen_dsv_input(u: &mut Src) -> (Input, DsvConfig) {
 
 fn gen_program(u: &mut Src) -> Input {
     let fx = soup::fixtures();
-    match u.weighted(&[40, 25, 10, 15, 10]) {
+    match u.weighted(&[36, 22, 10, 14, 8, 10]) {
         0 => Input::new(soup::program_soup(u, 30).into_bytes(), "src-soup"),
+        5 => {
+            // every string-literal context (interpolated strings, object keys, ."key", import
+            // paths, format strings) x hostile escape / content right after the opening quote
+            const CTX: &[(&str, &str)] = &[("", ""), ("{", ":1}"), (".", ""), (".[", "]"), ("import ", " as a; ."), ("include ", "; ."), ("@base64 ", ""), ("{a:", "}"), ("ltrimstr(", ")"), ("$__loc__|.", ""), ("{(", "):1}"), ("module {a:", "}; ."), (". as {", ":$x}|$x"), ("@json ", ""), ("test(", ";\"g\")"), ("[", "]"), ("..|", "?"), ("def f: ", "; f")];
+            const ESC: &[&str] = &["\\ud800", "\\udc00", "\\ud800\\udc00", "\\ud800\\u0041", "\\udbff\\udfff", "\\u", "\\u1", "\\u12g4", "\\uFFFF", "\\u0000", "\\x", "\\", "\\(", "\\(.", "\\(\"", "\\(\"\\(", "\\q", "\\/", "\\b\\f\\n\\r\\t", "\u{e9}", "\u{1f600}", "\u{0}", "\n", "\\(1)\\(2)", "\\(\\(", "\\()", "\\(;)", "\\u00e9\\(.a)\\ud83d\\ude00"];
+            let (pre, post) = *u.pick(CTX);
+            let mut s = String::from(pre);
+            s.push('"');
+            for _ in 0..u.range(0, 2) {
+                s.push_str(*u.pick(&["a", "", "k ", "\u{e9}"]));
+            }
+            for _ in 0..u.range(1, 3) {
+                s.push_str(*u.pick(ESC));
+            }
+            if !u.ratio(1, 5) {
+                s.push('"');
+                s.push_str(post);
+            }
+            Input::new(s.into_bytes(), "src-string-contexts")
+        }
         1 if !fx.filters.is_empty() => {
             let t = fx.filters[u.below(fx.filters.len())].as_bytes().to_vec();
             let toks: Vec<&[u8]> = soup::JQ_TOKENS.iter().map(|s| s.as_bytes()).collect();
@@ -1312,7 +1342,7 @@ fn cli_case(bytes: &[u8], st: &mut Stats) -> Result<(), Fail> {
         if o.crashed() {
             let err = o.stderr_str();
             let mut sig = match parse_cli_panic(&err) {
-                Some((loc, msg)) => format!("C19/cli/panic@{}/{}", panic_sig(&loc), msg_class(&msg)),
+                Some((loc, msg)) => format!("C19/cli/panic@{}/{}", site_of(&loc), msg_class(&msg)),
                 None => format!("C19/cli/{}/signal-{}", name.split('-').next().unwrap_or(name), o.signal.unwrap_or(0)),
             };
             if let Some(n) = guard_limit(&err) {
@@ -1494,7 +1524,7 @@ pub fn run(cx: &mut Ctx) {
         let inp = gen_program(u);
         lib_case("jq-parse", inp, Value::Null, k, st)
     });
-    for (sub, cls) in [("json-lib", "src-soup"), ("json-lib", "src-truncated"), ("json-lib", "src-raw"), ("json-lib", "src-fixture-mutated"), ("json-lib", "src-edge"), ("json-lib", "invalid-utf8"), ("yaml-lib", "src-soup"), ("yaml-lib", "src-fixture-mutated"), ("yaml-lib", "src-truncated"), ("yaml-lib", "src-raw"), ("yaml-lib", "src-edge"), ("yaml-lib", "src-anchors"), ("jq-parse", "src-soup"), ("jq-parse", "src-fixture-mutated"), ("dsv-lib", "odd-quotes")] {
+    for (sub, cls) in [("json-lib", "src-soup"), ("json-lib", "src-truncated"), ("json-lib", "src-raw"), ("json-lib", "src-fixture-mutated"), ("json-lib", "src-edge"), ("json-lib", "invalid-utf8"), ("yaml-lib", "src-soup"), ("yaml-lib", "src-fixture-mutated"), ("yaml-lib", "src-truncated"), ("yaml-lib", "src-raw"), ("yaml-lib", "src-edge"), ("yaml-lib", "src-anchors"), ("jq-parse", "src-soup"), ("jq-parse", "src-fixture-mutated"), ("jq-parse", "src-string-contexts"), ("dsv-lib", "odd-quotes")] {
         // fixture-derived classes cannot be demanded when the fixture files are absent
         if !(cls.contains("fixture") && !fx.missing.is_empty()) {
             cx.require_class(sub, cls, 20);
@@ -1520,7 +1550,8 @@ pub fn run(cx: &mut Ctx) {
     }
     for sub in ["deep-yaml-build", "deep-yaml-walk", "deep-yaml-json-out", "deep-yaml-yaml-out"] {
         cx.check_isolated(sub, "flow/indicator units repeated n times (300..30k, thorough 200k), indentation staircases, alias chains, alias nesting and merge chains; one API group", db(), iso(4), |u, st| {
-            let inp = gen_deep_yaml(u, ysz, sub.ends_with("-out"));
+            // parse + validate only is cheap: the build sub-check takes the larger sizes too
+            let inp = gen_deep_yaml(u, if sub == "deep-yaml-build" { sz } else { ysz }, sub.ends_with("-out"));
             lib_case(sub, inp, Value::Null, k, st)
         });
     }
